@@ -106,69 +106,12 @@ func runC05(w *World, r *Report) {
 
 	builtRule(w, r, "extent", func(k *Kind) bool { return k.Unmarshal != nil && !strings.HasPrefix(k.Name, "protocol.") })
 	// ---------------------------------------------------------------- trailing
-	var decoders []*FuncInfo
-	for _, k := range w.KindsL {
-		if k.Unmarshal == nil || !k.OwnUnmarshal {
-			continue
-		}
-		if dfi := w.FuncOf(k.Unmarshal); dfi != nil {
-			decoders = append(decoders, dfi)
-		}
-	}
-	// the dispatchers are child decoders too: they are handed the rest of the parent's input (Parse inside a
-	// bundle-add is followed by the bundle properties, DecodeAction inside a list by the next action)
-	for _, key := range w.sortedFuncKeys() {
-		fi := w.Funcs[key]
-		if fi.Recv == nil && fi.Decl.Body != nil && (fi.Decl.Name.Name == "Parse" || strings.HasPrefix(fi.Decl.Name.Name, "Decode") || strings.HasPrefix(fi.Decl.Name.Name, "decode")) && !strings.HasPrefix(key, "protocol.") {
-			for _, fl := range fi.Decl.Type.Params.List {
-				if isByteSlice(fi.Pkg.TypesInfo.TypeOf(fl.Type)) {
-					decoders = append(decoders, fi)
-					break
-				}
-			}
-		}
-	}
-	for _, dfi := range decoders {
-		info := dfi.Pkg.TypesInfo
-		var param types.Object
-		for _, fl := range dfi.Decl.Type.Params.List {
-			for _, nm := range fl.Names {
-				if o := info.Defs[nm]; o != nil && isByteSlice(o.Type()) {
-					param = o
-				}
-			}
-		}
-		bad := false
-		ast.Inspect(dfi.Decl.Body, func(n ast.Node) bool {
-			be, ok := n.(*ast.BinaryExpr)
-			if !ok || (be.Op != token.NEQ && be.Op != token.EQL) {
-				return true
-			}
-			isLen := func(e ast.Expr) bool {
-				c, ok := unparen(e).(*ast.CallExpr)
-				if !ok || len(c.Args) != 1 {
-					return false
-				}
-				id, ok := c.Fun.(*ast.Ident)
-				return ok && id.Name == "len" && identObj(info, c.Args[0]) == param && param != nil
-			}
-			if isLen(be.X) || isLen(be.Y) {
-				// an equality test against 0 (empty input) is harmless; anything else rejects trailing bytes
-				other := be.Y
-				if isLen(be.Y) {
-					other = be.X
-				}
-				if v, isC := constIntOf(info, other); isC && v == 0 {
-					return true
-				}
-				bad = true
-				r.Fail(VViolation, "trailing", dfi.Key, types.ExprString(be), w.Pos(be.Pos()), "the decoder compares the input length for (in)equality: inside a list the element is followed by the next one, so it decodes only as the last element")
-			}
-			return true
-		})
-		if !bad {
-			r.OK("trailing", dfi.Key, "", w.Pos(dfi.Decl.Pos()), "no equality test on the input length", false)
-		}
+	trailingRule(w, r)
+	// a declared length that differs from the bytes produced is re-read by the decoder as the element's extent:
+	// decoding the encoding and encoding again gives other bytes
+	r.Rule("wirelen", "the declared length each encoder puts on the wire equals the bytes the element occupies at the moment of encoding", 34)
+	if ak, ik, ok := elementKinds(w); ok {
+		runWirelen(w, r, ak, ik)
 	}
 
 	// ---------------------------------------------------------------- codes
@@ -452,6 +395,20 @@ func mirrorKind(w *World, r *Report, k *Kind, efi, dfi *FuncInfo) {
 			continue
 		}
 		if len(rs) == 0 && storedFields[wm.field] {
+			// bytes copied into the field must come from the input itself: a value computed from the input by a
+			// function the interpreter does not follow (trimmed, re-sliced, transformed) is not what was written
+			if wm.kind == "bytes" {
+				badSrc := ""
+				for _, c := range ds.Copies {
+					if c.Dst == wm.field && c.Src != "" && c.Src != "P" && !strings.HasPrefix(c.Src, "arg:") && c.Src != "local" && !strings.HasPrefix(c.Src, "$") {
+						badSrc = c.Src
+					}
+				}
+				if badSrc != "" {
+					r.Fail(VViolation, "mirror", k.Name, inst, pos, fmt.Sprintf("the encoder writes %s (width %v), but the decoder fills it from %s, a value computed from the input rather than the bytes at that place: length or contents differ after a round trip", wm.field, wm.w, badSrc))
+					continue
+				}
+			}
 			r.OK("mirror", k.Name, inst, pos, "the decoder fills "+wm.field+" from a staged local (offset not compared here)", false)
 			continue
 		}
@@ -1290,4 +1247,73 @@ func keepAllRule(w *World, r *Report, fi *FuncInfo) {
 		walk(loop.Body, nil)
 		return true
 	})
+}
+
+// trailingRule: no decoder (kind decoders and the dispatchers, which are handed the rest of their parent's
+// input) tests the length of its input for equality.
+func trailingRule(w *World, r *Report) {
+	var decoders []*FuncInfo
+	for _, k := range w.KindsL {
+		if k.Unmarshal == nil || !k.OwnUnmarshal {
+			continue
+		}
+		if dfi := w.FuncOf(k.Unmarshal); dfi != nil {
+			decoders = append(decoders, dfi)
+		}
+	}
+	// the dispatchers are child decoders too: they are handed the rest of the parent's input (Parse inside a
+	// bundle-add is followed by the bundle properties, DecodeAction inside a list by the next action)
+	for _, key := range w.sortedFuncKeys() {
+		fi := w.Funcs[key]
+		if fi.Recv == nil && fi.Decl.Body != nil && (fi.Decl.Name.Name == "Parse" || strings.HasPrefix(fi.Decl.Name.Name, "Decode") || strings.HasPrefix(fi.Decl.Name.Name, "decode")) && !strings.HasPrefix(key, "protocol.") {
+			for _, fl := range fi.Decl.Type.Params.List {
+				if isByteSlice(fi.Pkg.TypesInfo.TypeOf(fl.Type)) {
+					decoders = append(decoders, fi)
+					break
+				}
+			}
+		}
+	}
+	for _, dfi := range decoders {
+		info := dfi.Pkg.TypesInfo
+		var param types.Object
+		for _, fl := range dfi.Decl.Type.Params.List {
+			for _, nm := range fl.Names {
+				if o := info.Defs[nm]; o != nil && isByteSlice(o.Type()) {
+					param = o
+				}
+			}
+		}
+		bad := false
+		ast.Inspect(dfi.Decl.Body, func(n ast.Node) bool {
+			be, ok := n.(*ast.BinaryExpr)
+			if !ok || (be.Op != token.NEQ && be.Op != token.EQL) {
+				return true
+			}
+			isLen := func(e ast.Expr) bool {
+				c, ok := unparen(e).(*ast.CallExpr)
+				if !ok || len(c.Args) != 1 {
+					return false
+				}
+				id, ok := c.Fun.(*ast.Ident)
+				return ok && id.Name == "len" && identObj(info, c.Args[0]) == param && param != nil
+			}
+			if isLen(be.X) || isLen(be.Y) {
+				// an equality test against 0 (empty input) is harmless; anything else rejects trailing bytes
+				other := be.Y
+				if isLen(be.Y) {
+					other = be.X
+				}
+				if v, isC := constIntOf(info, other); isC && v == 0 {
+					return true
+				}
+				bad = true
+				r.Fail(VViolation, "trailing", dfi.Key, types.ExprString(be), w.Pos(be.Pos()), "the decoder compares the input length for (in)equality: inside a list the element is followed by the next one, so it decodes only as the last element")
+			}
+			return true
+		})
+		if !bad {
+			r.OK("trailing", dfi.Key, "", w.Pos(dfi.Decl.Pos()), "no equality test on the input length", false)
+		}
+	}
 }
